@@ -236,3 +236,876 @@ def run_C04(rng, tier, deep):
     return finish(st, "random structured solver requests (sizes 2..8, halo none/zero/commensurate/incommensurate, levels scalar/asc/shuffled/repeated/top, "
                   "uniform/varying profiles, both precisions, both modes, analytic/numeric); distinct = distinct canonical request; "
                   "oracle: three real solves per linearity case with sign-changing sources", deep, TOL)
+
+
+# ------------------------------------------------------------ shared helpers
+
+def base_of(case):
+    return {k: v for k, v in case.items() if k != "par"}
+
+
+def ongrid_point(rng, case):
+    ny, nx = case["q"].shape
+    dx, dy = case["domain"][0] / nx, case["domain"][1] / ny
+    im, jm = int(rng.integers(0, nx)), int(rng.integers(0, ny))
+    return im, jm, (float(im * dx), float(jm * dy))
+
+
+def resist(z, Kz, l):
+    z = np.asarray(z, dtype=float)
+    Kz = np.asarray(Kz, dtype=float)
+    return float(np.sum(np.diff(z)[:l] * (0.5 / Kz[:l] + 0.5 / Kz[1:l + 1])))
+
+
+def pads_of(case):
+    ny, nx = np.asarray(case["q"]).shape
+    xmx, ymx = case["domain"]
+    dx, dy = xmx / nx, ymx / ny
+    halo = case.get("halo")
+    if halo is None:
+        halo = max(xmx, ymx)
+    return int(halo / dx), int(halo / dy), dx, dy
+
+
+# ------------------------------------------------------------ C02 reciprocity
+
+@oracle
+def o_reciprocity(case):
+    """sum q*footprint = flux at the tower; sum q*(G - bg) = conc - bg there"""
+    par = case["par"]
+    im, jm = par["im"], par["jm"]
+    base = base_of(case)
+    ny, nx = base["q"].shape
+    dx, dy = base["domain"][0] / nx, base["domain"][1] / ny
+    disp = solve3(dict(base, footprint=False, meas_pt=(0.0, 0.0)))
+    fp = solve3(dict(base, footprint=True, meas_pt=(im * dx, jm * dy)))
+    q = np.asarray(base["q"], dtype=float)
+    tol = 1e-9 if base["precision"] == "double" else 2e-4
+    bg = base.get("bg", 0.0)
+    for k in range(disp[0].shape[0]):
+        f_pt = disp[1][k, jm, im]
+        c_pt = disp[0][k, jm, im] - bg
+        sf = float(np.sum(q * fp[1][k]))
+        sc = float(np.sum(q * (fp[0][k] - bg)))
+        scale_f = max(float(np.max(np.abs(disp[1][k]))), 1e-300)
+        scale_c = max(float(np.max(np.abs(disp[0][k] - bg))), 1e-300)
+        ef = abs(sf - f_pt) / scale_f
+        ec = abs(sc - c_pt) / scale_c
+        if not ef <= tol:
+            return fail("C02/reciprocity/flux", "sum(q*footprint) differs from the dispersion-run flux at the tower", None,
+                        float(f_pt), sf, tol)
+        if not ec <= tol:
+            return fail("C02/reciprocity/conc", "sum(q*(G-bg)) differs from the dispersion-run concentration above background at the tower",
+                        None, float(c_pt), sc, tol)
+    return None
+
+
+def run_C02(rng, tier, deep):
+    st = new_stats()
+    correspond([random_case(rng, footprint=bool(i % 2)) for i in range(budget(tier, deep, 24, 200))], st)
+    for _ in range(budget(tier, deep, 40, 500)):
+        c = random_case(rng)
+        im, jm, pt = ongrid_point(rng, c)
+        c["par"] = dict(im=im, jm=jm)
+        c["meas_pt"] = pt
+        run_oracle(st, o_reciprocity, c)
+    return finish(st, "random requests (all halo kinds incl. incommensurate and default, dx != dy, all source kinds, truncation 2..512 modes, "
+                  "uniform/varying profiles, both precisions, 1-3 levels); oracle: one dispersion and one footprint solve per case at a random on-grid tower",
+                  deep, TOL)
+
+
+# ------------------------------------------------------------ C03 conservation / halo = padding
+
+@oracle
+def o_conservation(case):
+    base = dict(base_of(case), halo=0.0, meas_pt=(0.0, 0.0))
+    q = np.asarray(base["q"], dtype=float)
+    z, Kz = base["z"], base["profiles"][4]
+    lv = [int(base["levels"])] if np.ndim(base["levels"]) == 0 else [int(l) for l in base["levels"]]
+    tol = 1e-11 if base["precision"] == "double" else 3e-5
+    bg = base.get("bg", 0.0)
+    d = solve3(dict(base, footprint=False))
+    f = solve3(dict(base, footprint=True))
+    mq = float(np.mean(q))
+    for k, l in enumerate(lv):
+        R = (float(z[l] - z[0]) / float(Kz[-1])) if base["analytic"] else resist(z, Kz, l)
+        mf = float(np.mean(d[1][k]))
+        sc = max(float(np.max(np.abs(d[1][k]))), abs(mq), 1e-300)
+        if not abs(mf - mq) / sc <= tol:
+            return fail("C03/mean-flux", "horizontal mean of the flux differs from the mean surface flux", None, mq, mf, tol)
+        mc = float(np.mean(d[0][k]))
+        exp = bg - mq * R
+        sc = max(abs(bg), abs(mq * R), float(np.max(np.abs(d[0][k]))), 1e-300)
+        if not abs(mc - exp) / sc <= max(tol, 1e-10):
+            return fail("C03/mean-conc", "horizontal-mean concentration differs from bg - mean(q)*resistance", None, exp, mc, tol)
+        s = float(np.sum(f[1][k]))
+        if not abs(s - 1.0) <= max(tol, 1e-10):
+            return fail("C03/unit-sum", "footprint weights over the periodic domain do not sum to one", None, 1.0, s, tol)
+    return None
+
+
+@oracle
+def o_halo_padding(case):
+    """halo of width h == zero-pad by (py,px) cells, enlarge the domain, halo=0, crop"""
+    base = base_of(case)
+    q = np.asarray(base["q"], dtype=float)
+    ny, nx = q.shape
+    px, py, dx, dy = pads_of(base)
+    xmx, ymx = base["domain"]
+    xm, ym = base["meas_pt"]
+    big = dict(base, q=np.pad(q, ((py, py), (px, px))), domain=(xmx + 2 * px * dx, ymx + 2 * py * dy), halo=0.0)
+    if base["footprint"]:
+        big["meas_pt"] = (xm + px * dx, ym + py * dy)
+    else:
+        # dispersion mode: a non-zero measurement point re-centres on the ORIGINAL domain; compare un-centred
+        base = dict(base, meas_pt=(0.0, 0.0))
+        big["meas_pt"] = (0.0, 0.0)
+    a = solve3(base)
+    b = solve3(big)
+    tol = 1e-9 if base["precision"] == "double" else 3e-5
+    for name, k in (("conc", 0), ("flx", 1)):
+        crop = b[k][:, py:py + ny, px:px + nx]
+        e = relerr(a[k], crop)
+        if not e <= tol:
+            return fail("C03/halo-padding/%s" % name, "halo result differs from explicit zero-padding + crop", None, "equal", e, tol)
+    return None
+
+
+def run_C03(rng, tier, deep):
+    st = new_stats()
+    correspond([random_case(rng, halo=0.0 if i % 3 == 0 else random_case(rng)["halo"]) for i in range(budget(tier, deep, 24, 200))], st)
+    for _ in range(budget(tier, deep, 30, 400)):
+        c = random_case(rng)
+        run_oracle(st, o_conservation, c)
+        c2 = random_case(rng)
+        im, jm, pt = ongrid_point(rng, c2)
+        c2["meas_pt"] = pt
+        if c2["halo"] is None and max(c2["q"].shape) > 6:
+            continue
+        run_oracle(st, o_halo_padding, c2)
+    return finish(st, "random requests; conservation oracle with halo=0 (periodic domain observed through the API), "
+                  "halo-equivalence oracle with explicit np.pad, enlarged domain, halo=0 and crop", deep, TOL)
+
+
+# ------------------------------------------------------------ C05 closed form / third order
+
+def spec_fields(case, coef_fn):
+    """Independent spectral synthesis: out[k,j,i] = Re sum_{retained (fa,fb)} c_k(fa,fb) * phase.
+    coef_fn(fa, fb, Lx, Ly, qhat, k) -> (p, q) complex for non-DC; DC handled by caller via (0,0)."""
+    q = np.asarray(case["q"], dtype=float)
+    ny, nx = q.shape
+    px, py, dx, dy = pads_of(case)
+    Nx, Ny = nx + 2 * px, ny + 2 * py
+    nlx, nly = case["modes"]
+    if nlx > Nx or nly > Ny:
+        nlx, nly = Nx, Ny
+
+    def freqs(nl):
+        return np.array([a if a < (nl + 1) // 2 else a - nl for a in range(nl)])
+    fa, fb = freqs(nly), freqs(nlx)
+    qpad = np.pad(q, ((py, py), (px, px)))
+    jj, ii = np.arange(Ny), np.arange(Nx)
+    Ey = np.exp(-2j * np.pi * np.outer(fa, jj) / Ny)   # (nly, Ny)
+    Ex = np.exp(-2j * np.pi * np.outer(fb, ii) / Nx)   # (nlx, Nx)
+    xm, ym = case["meas_pt"]
+    if case["footprint"]:
+        qhat = np.ones((nly, nlx), dtype=complex) / (Nx * Ny)
+    else:
+        qhat = Ey @ qpad @ Ex.T / (Nx * Ny)
+    Lx = 2 * np.pi * fb / (dx * Nx)
+    Ly = 2 * np.pi * fa / (dy * Ny)
+    lv = [int(case["levels"])] if np.ndim(case["levels"]) == 0 else [int(l) for l in case["levels"]]
+    outs_p, outs_q = [], []
+    for k, l in enumerate(lv):
+        cp = np.zeros((nly, nlx), dtype=complex)
+        cq = np.zeros((nly, nlx), dtype=complex)
+        for a in range(nly):
+            for b in range(nlx):
+                cp[a, b], cq[a, b] = coef_fn(a, b, Lx[b], Ly[a], qhat[a, b], l)
+        if case["footprint"]:
+            sh = np.exp(1j * (Lx[None, :] * (xm + px * dx) + Ly[:, None] * (ym + py * dy)))
+            sgn = -1.0
+        else:
+            sh = np.exp(1j * (Lx[None, :] * (xm - case["domain"][0] / 2) + Ly[:, None] * (ym - case["domain"][1] / 2))) \
+                if xm ** 2 + ym ** 2 > 0 else 1.0
+            sgn = 1.0
+        cp, cq = cp * sh, cq * sh
+        Sy = np.exp(sgn * 2j * np.pi * np.outer(jj, fa) / Ny)  # (Ny, nly)
+        Sx = np.exp(sgn * 2j * np.pi * np.outer(fb, ii) / Nx)  # (nlx, Nx)
+        outs_p.append((Sy @ cp @ Sx).real[py:py + ny, px:px + nx])
+        outs_q.append((Sy @ cq @ Sx).real[py:py + ny, px:px + nx])
+    return np.array(outs_p), np.array(outs_q)
+
+
+def closed_form_coef(case):
+    u, v, Kx, Ky, Kz = [float(np.asarray(p)[-1]) for p in case["profiles"]]
+    z = np.asarray(case["z"], dtype=float)
+    bg = case.get("bg", 0.0)
+
+    def coef(a, b, Lx, Ly, qh, l):
+        h = z[l] - z[0]
+        if a == 0 and b == 0:
+            return bg - qh * h / Kz, qh
+        mu = np.sqrt(complex((Kx * Lx ** 2 + Ky * Ly ** 2) / Kz, (u * Lx + v * Ly) / Kz))
+        Q = qh * np.exp(-mu * h)
+        return Q / (Kz * mu), Q
+    return coef
+
+
+@oracle
+def o_closed_form(case):
+    """analytic mode == independently written closed form (half-space exponential decay, linear mean)"""
+    base = dict(base_of(case), analytic=True, precision="double")
+    a = solve3(base)
+    p, q = spec_fields(base, closed_form_coef(base))
+    tol = 1e-10
+    for name, got, exp in (("conc", a[0], p), ("flx", a[1], q)):
+        e = relerr(got, exp)
+        if not e <= tol:
+            return fail("C05/closed-form/%s" % name, "analytic mode differs from the closed-form half-space solution", None, "equal", e, tol)
+    return None
+
+
+@oracle
+def o_third_order(case):
+    """numeric -> analytic at third order: error ratio >= 6 per halving in the resolved regime"""
+    par = case["par"]
+    base = dict(base_of(case), precision="double")
+    n0 = par["n0"]
+    z0, zm = par["z0"], par["zm"]
+    errs = []
+    for n in (n0, 2 * n0, 4 * n0):
+        zz = np.linspace(z0, zm, n + 1)
+        prof = tuple(np.full(n + 1, float(np.asarray(p)[0])) for p in base["profiles"])
+        cc = dict(base, z=zz, profiles=prof, levels=n)
+        num = solve3(dict(cc, analytic=False))
+        ana = solve3(dict(cc, analytic=True))
+        errs.append(max(relerr(num[0], ana[0]), relerr(num[1], ana[1])))
+    for e0, e1 in zip(errs, errs[1:]):
+        if e0 > 1e-9 and e1 > 1e-11:
+            ratio = e0 / e1
+            if not ratio >= 6.0:
+                return fail("C05/order", "uniform-profile error shrinks by less than 6x per halving of the layer thickness (third order expected ~8x)",
+                            None, ">= 6", [float(x) for x in errs], None)
+    if not errs[-1] <= max(errs[0], 1e-12):
+        return fail("C05/order", "refinement does not reduce the error", None, "decreasing", [float(x) for x in errs], None)
+    return None
+
+
+def resolved_uniform_case(rng, n0=None):
+    c = random_case(rng, analytic=False)
+    ny, nx = c["q"].shape
+    n0 = n0 or int(rng.integers(6, 14))
+    z0, zm = float(rng.uniform(0.05, 0.5)), float(rng.uniform(4, 10))
+    c["z"] = np.linspace(z0, zm, n0 + 1)
+    c["profiles"] = uniform_profiles(rng, n0 + 1)
+    # resolved regime: keep |mu dz| <= 0.5 for the highest retained mode by enlarging the domain
+    u, v, Kx, Ky, Kz = [float(p[0]) for p in c["profiles"]]
+    dz = (zm - z0) / n0
+    while True:
+        px, py, dx, dy = pads_of(c)
+        Lmax = np.pi / min(dx, dy)
+        mu = np.sqrt(abs(complex((max(Kx, Ky) * 2 * Lmax ** 2) / Kz, (abs(u) + abs(v)) * Lmax / Kz)))
+        if mu * dz <= 0.5:
+            break
+        c["domain"] = (c["domain"][0] * 1.5, c["domain"][1] * 1.5)
+        if c["halo"] is not None:
+            c["halo"] = c["halo"] * 1.5
+        c["meas_pt"] = (c["meas_pt"][0] * 1.5, c["meas_pt"][1] * 1.5)
+    c["levels"] = n0
+    c["par"] = dict(n0=n0, z0=z0, zm=zm)
+    return c
+
+
+def run_C05(rng, tier, deep):
+    st = new_stats()
+    cases = []
+    for i in range(budget(tier, deep, 24, 200)):
+        c = random_case(rng, analytic=bool(i % 2))
+        c["profiles"] = uniform_profiles(rng, len(c["z"]))
+        c["_kinds"]["prof"] = "uniform"
+        cases.append(c)
+    correspond(cases, st)
+    for _ in range(budget(tier, deep, 30, 300)):
+        c = random_case(rng, analytic=True)
+        c["profiles"] = uniform_profiles(rng, len(c["z"]))
+        run_oracle(st, o_closed_form, c)
+    for _ in range(budget(tier, deep, 8, 60)):
+        run_oracle(st, o_third_order, resolved_uniform_case(rng))
+    return finish(st, "uniform-profile requests (analytic and numeric, all halo/level/mode kinds); closed-form oracle = independent direct spectral synthesis "
+                  "in numpy; order oracle = numeric vs analytic at n, 2n, 4n layers in the resolved regime (|mu dz| <= 0.5)", deep, TOL)
+
+
+# ------------------------------------------------------------ C06 translation equivariance
+
+@oracle
+def o_source_shift(case):
+    par = case["par"]
+    cy, cx = par["cy"], par["cx"]
+    base = dict(base_of(case), halo=0.0, footprint=False, meas_pt=(0.0, 0.0))
+    a = solve3(base)
+    b = solve3(dict(base, q=np.roll(np.asarray(base["q"]), (cy, cx), axis=(0, 1))))
+    tol = 1e-10 if base["precision"] == "double" else 3e-5
+    for name, k in (("conc", 0), ("flx", 1)):
+        e = relerr(np.roll(a[k], (cy, cx), axis=(1, 2)), b[k])
+        if not e <= tol:
+            return fail("C06/source-shift/%s" % name, "translating the source by whole cells does not translate the %s" % name, None, "equal", e, tol)
+    return None
+
+
+@oracle
+def o_tower_shift(case):
+    par = case["par"]
+    cy, cx, im, jm = par["cy"], par["cx"], par["im"], par["jm"]
+    base = dict(base_of(case), halo=0.0, footprint=True)
+    ny, nx = base["q"].shape
+    dx, dy = base["domain"][0] / nx, base["domain"][1] / ny
+    a = solve3(dict(base, meas_pt=(im * dx, jm * dy)))
+    b = solve3(dict(base, meas_pt=((im + cx) * dx, (jm + cy) * dy)))
+    tol = 1e-10 if base["precision"] == "double" else 3e-5
+    for name, k in (("conc", 0), ("flx", 1)):
+        e = relerr(np.roll(a[k], (cy, cx), axis=(1, 2)), b[k])
+        if not e <= tol:
+            return fail("C06/tower-shift/%s" % name, "moving the measurement point by whole cells does not translate the footprint", None, "equal", e, tol)
+    # point reflection: footprint[j,i] = response to a unit source at the tower, evaluated at (2jm-j, 2im-i)
+    delta = np.zeros((ny, nx))
+    delta[jm % ny, im % nx] = 1.0
+    d = solve3(dict(base, footprint=False, q=delta, meas_pt=(0.0, 0.0)))
+    jj = (2 * jm - np.arange(ny)) % ny
+    ii = (2 * im - np.arange(nx)) % nx
+    bg = base.get("bg", 0.0)
+    for name, k in (("conc", 0), ("flx", 1)):
+        refl = d[k][:, jj][:, :, ii]
+        e = relerr(a[k], refl)
+        if not e <= tol:
+            return fail("C06/point-reflection/%s" % name, "footprint is not the point reflection of the unit-source response about the tower", None, "equal", e, tol)
+    return None
+
+
+@oracle
+def o_recentre(case):
+    par = case["par"]
+    im, jm = par["im"], par["jm"]
+    base = dict(base_of(case), footprint=False)
+    ny, nx = base["q"].shape
+    dx, dy = base["domain"][0] / nx, base["domain"][1] / ny
+    a = solve3(dict(base, meas_pt=(0.0, 0.0)))
+    b = solve3(dict(base, meas_pt=(im * dx, jm * dy)))
+    tol = 1e-9 if base["precision"] == "double" else 3e-5
+    for name, k in (("conc", 0), ("flx", 1)):
+        sc = max(float(np.max(np.abs(a[k]))), 1e-300)
+        if im == 0 and jm == 0:
+            if not relerr(a[k], b[k]) <= tol:
+                return fail("C06/recentre/origin", "a zero measurement point changed the output", None, "equal", relerr(a[k], b[k]), tol)
+            continue
+        got = b[k][:, ny // 2, nx // 2]
+        exp = a[k][:, jm, im]
+        e = float(np.max(np.abs(got - exp))) / sc
+        if not e <= tol:
+            return fail("C06/recentre/%s" % name, "value at the domain centre is not the field value at the measurement point", None,
+                        [float(x) for x in exp], [float(x) for x in got], tol)
+        if base.get("halo") == 0.0:
+            e = relerr(np.roll(a[k], (ny // 2 - jm, nx // 2 - im), axis=(1, 2)), b[k])
+            if not e <= tol:
+                return fail("C06/recentre-roll/%s" % name, "re-centred output is not the periodic translate of the un-centred one", None, "equal", e, tol)
+    return None
+
+
+def even_case(rng, **kw):
+    while True:
+        c = random_case(rng, **kw)
+        ny, nx = c["q"].shape
+        if nx % 2 == 0 and ny % 2 == 0:
+            return c
+
+
+def run_C06(rng, tier, deep):
+    st = new_stats()
+    cases = []
+    for i in range(budget(tier, deep, 24, 200)):
+        c = random_case(rng)
+        im, jm, pt = ongrid_point(rng, c)
+        c["meas_pt"] = pt
+        cases.append(c)
+    correspond(cases, st)
+    for _ in range(budget(tier, deep, 25, 300)):
+        c = random_case(rng)
+        ny, nx = c["q"].shape
+        im, jm, _ = ongrid_point(rng, c)
+        c["par"] = dict(cy=int(rng.integers(-ny, 2 * ny)), cx=int(rng.integers(-nx, 2 * nx)), im=im, jm=jm)
+        run_oracle(st, o_source_shift, c)
+        run_oracle(st, o_tower_shift, c)
+        c2 = even_case(rng)
+        im, jm, _ = ongrid_point(rng, c2)
+        if rng.random() < 0.15:
+            im, jm = 0, 0
+        c2["par"] = dict(im=im, jm=jm)
+        if rng.random() < 0.4:
+            c2["halo"] = 0.0
+        run_oracle(st, o_recentre, c2)
+    return finish(st, "random requests with on-grid towers; oracles: np.roll of the source / of the tower position (incl. wrap-around, shifts in [-n, 2n)), "
+                  "point reflection against a unit-source dispersion run, re-centring value and full periodic roll (halo=0)", deep, TOL)
+
+
+# ------------------------------------------------------------ C07 symmetries
+
+def lowpass_strict(f, nlx, nly):
+    """keep only components strictly inside the cut-off (|freq| < nl/2) of a periodic field (nlv, ny, nx)"""
+    F = np.fft.fft2(f, axes=(1, 2))
+    ny, nx = f.shape[1:]
+    fy = np.abs(np.fft.fftfreq(ny, 1.0 / ny))
+    fx = np.abs(np.fft.fftfreq(nx, 1.0 / nx))
+    nlx, nly = min(nlx, nx), min(nly, ny)
+    F[:, fy >= nly / 2, :] = 0
+    F[:, :, fx >= nlx / 2] = 0
+    return np.fft.ifft2(F, axes=(1, 2)).real
+
+
+@oracle
+def o_mirror(case):
+    par = case["par"]
+    axis = par["axis"]   # "x" or "y"
+    base = dict(base_of(case), halo=0.0)
+    ny, nx = base["q"].shape
+    dx, dy = base["domain"][0] / nx, base["domain"][1] / ny
+    im, jm = par["im"], par["jm"]
+    u, v, Kx, Ky, Kz = base["profiles"]
+    q = np.asarray(base["q"])
+    if axis == "x":
+        m = dict(base, q=q[:, ::-1].copy(), profiles=(-np.asarray(u), v, Kx, Ky, Kz))
+        im2, jm2 = nx - 1 - im, jm
+        flip = lambda f: f[:, :, ::-1]  # noqa: E731
+    else:
+        m = dict(base, q=q[::-1, :].copy(), profiles=(u, -np.asarray(v), Kx, Ky, Kz))
+        im2, jm2 = im, ny - 1 - jm
+        flip = lambda f: f[:, ::-1, :]  # noqa: E731
+    if base["footprint"]:
+        base["meas_pt"] = (im * dx, jm * dy)
+        m["meas_pt"] = (im2 * dx, jm2 * dy)
+    else:
+        base["meas_pt"] = (0.0, 0.0)
+        m["meas_pt"] = (0.0, 0.0)
+    a = solve3(base)
+    b = solve3(m)
+    tol = 1e-9 if base["precision"] == "double" else 3e-5
+    nlx, nly = base["modes"]
+    for name, k in (("conc", 0), ("flx", 1)):
+        e = relerr(lowpass_strict(flip(a[k]), nlx, nly), lowpass_strict(b[k], nlx, nly))
+        if not e <= tol:
+            return fail("C07/mirror-%s/%s" % (axis, name), "mirroring the problem in %s does not mirror the %s (Nyquist components removed)" % (axis, name),
+                        None, "equal", e, tol)
+    return None
+
+
+@oracle
+def o_transpose(case):
+    base = base_of(case)
+    u, v, Kx, Ky, Kz = base["profiles"]
+    xm, ym = base["meas_pt"]
+    halo = base.get("halo")
+    t = dict(base, q=np.asarray(base["q"]).T.copy(), profiles=(v, u, Ky, Kx, Kz), domain=(base["domain"][1], base["domain"][0]),
+             modes=(base["modes"][1], base["modes"][0]), meas_pt=(ym, xm))
+    a = solve3(base)
+    b = solve3(t)
+    tol = 1e-9 if base["precision"] == "double" else 3e-5
+    for name, k in (("conc", 0), ("flx", 1)):
+        e = relerr(np.transpose(a[k], (0, 2, 1)), b[k])
+        if not e <= tol:
+            return fail("C07/transpose/%s" % name, "exchanging the x and y axes does not transpose the %s" % name, None, "equal", e, tol)
+    return None
+
+
+@oracle
+def o_similarity(case):
+    par = case["par"]
+    s = par["s"]
+    base = base_of(case)
+    u, v, Kx, Ky, Kz = [np.asarray(p, dtype=float) for p in base["profiles"]]
+    tol = 1e-8 if base["precision"] == "double" else 5e-5
+    a = solve3(base)
+    if par["kind"] == "length":
+        halo = base.get("halo")
+        t = dict(base, z=np.asarray(base["z"]) * s, domain=(base["domain"][0] * s, base["domain"][1] * s),
+                 meas_pt=(base["meas_pt"][0] * s, base["meas_pt"][1] * s), halo=None if halo is None else halo * s,
+                 profiles=(u, v, Kx * s, Ky * s, Kz * s))
+        b = solve3(t)
+        for name, k in (("conc", 0), ("flx", 1)):
+            bgk = base.get("bg", 0.0) if k == 0 else 0.0
+            e = relerr(a[k], b[k])
+            if not e <= tol:
+                return fail("C07/length-similarity/%s" % name, "scaling all lengths and diffusivities by a common factor changed the %s" % name,
+                            None, "equal", e, tol)
+    else:
+        t = dict(base, profiles=(u * s, v * s, Kx * s, Ky * s, Kz * s), bg=base.get("bg", 0.0) / s)
+        b = solve3(t)
+        e = relerr(a[1], b[1])
+        if not e <= tol:
+            return fail("C07/velocity-similarity/flx", "scaling winds and diffusivities by a common factor changed the flux", None, "equal", e, tol)
+        e = relerr(a[0] / s, b[0])
+        if not e <= tol:
+            return fail("C07/velocity-similarity/conc", "scaling winds and diffusivities by s did not divide the concentration by s", None, "equal", e, tol)
+    return None
+
+
+def run_C07(rng, tier, deep):
+    st = new_stats()
+    correspond([random_case(rng) for _ in range(budget(tier, deep, 24, 200))], st)
+    for _ in range(budget(tier, deep, 20, 250)):
+        c = random_case(rng)
+        im, jm, pt = ongrid_point(rng, c)
+        c["par"] = dict(axis=str(rng.choice(["x", "y"])), im=im, jm=jm)
+        run_oracle(st, o_mirror, c)
+        c = random_case(rng)
+        run_oracle(st, o_transpose, c)
+        c = random_case(rng)
+        if c["halo"] is not None and c["_kinds"]["halo"] == "comm":
+            c["halo"] = c["halo"] * 1.37   # avoid int(halo/dx) sitting on a float-rounding tie
+        if c["_kinds"]["meas"] == "grid":
+            pass
+        c["par"] = dict(kind=str(rng.choice(["length", "velocity"])), s=float(10 ** rng.uniform(-3, 3)))
+        run_oracle(st, o_similarity, c)
+    return finish(st, "random requests with Kx != Ky != Kz, oblique sheared winds, nx != ny; oracles: x/y mirror (halo=0, components at or beyond "
+                  "the cut-off removed by FFT), transpose with swapped winds/diffusivities/domain/modes, length and velocity similarity with "
+                  "scale factors 1e-3..1e3", deep, TOL)
+
+
+# ------------------------------------------------------------ C10 levels
+
+@oracle
+def o_levels(case):
+    base = base_of(case)
+    lv = base["levels"]
+    lvl = [int(lv)] if np.ndim(lv) == 0 else [int(l) for l in lv]
+    form = case["par"]["form"]
+    arg = lv if np.ndim(lv) == 0 else (np.array(lvl) if form == "array" else (tuple(lvl) if form == "tuple" else list(lvl)))
+    z = np.asarray(base["z"], dtype=float)
+    grid, conc, flx = real_solve(dict(base, levels=arg))
+    ny, nx = np.asarray(base["q"]).shape
+    nlv = len(lvl)
+    if np.asarray(conc).size != nlv * ny * nx:
+        return fail("C10/shape", "multi-level result has the wrong number of slices", None, [nlv, ny, nx], list(np.shape(conc)), 0)
+    conc = np.asarray(conc, dtype=float).reshape(nlv, ny, nx)
+    flx = np.asarray(flx, dtype=float).reshape(nlv, ny, nx)
+    Z = np.asarray(grid[2], dtype=float).reshape(nlv, ny, nx)
+    tol = 1e-12 if base["precision"] == "double" else 1e-6
+    full = solve3(dict(base, levels=list(range(len(z))))) if case["par"].get("full") else None
+    for k, l in enumerate(lvl):
+        if not np.all(Z[k] == z[l]):
+            return fail("C10/height-label", "returned height of slice %d is not the height of the requested level" % k, None, float(z[l]), float(Z[k, 0, 0]), 0)
+        one = solve3(dict(base, levels=int(l)))
+        for name, got, exp in (("conc", conc[k], one[0][0]), ("flx", flx[k], one[1][0])):
+            e = relerr(got, exp)
+            if not e <= tol:
+                return fail("C10/slice-vs-single/%s" % name, "slice %d of a multi-level request differs from the single-level request for that level" % k,
+                            None, "equal", e, tol)
+        if full is not None:
+            for name, got, exp in (("conc", conc[k], full[0][l]), ("flx", flx[k], full[1][l])):
+                e = relerr(got, exp)
+                if not e <= tol:
+                    return fail("C10/slice-vs-column/%s" % name, "slice %d differs from the corresponding slice of a full-column request" % k,
+                                None, "equal", e, tol)
+    return None
+
+
+def run_C10(rng, tier, deep):
+    st = new_stats()
+    cases = []
+    for i in range(budget(tier, deep, 30, 250)):
+        c = random_case(rng)
+        cases.append(c)
+    correspond(cases, st)
+    for i in range(budget(tier, deep, 40, 400)):
+        c = random_case(rng, small=(i % 5 != 0))
+        nz = len(c["z"])
+        kind = rng.choice(["asc", "desc", "shuf", "rep", "top", "scalar", "all"])
+        k = int(rng.integers(1, min(nz, 5) + 1))
+        if kind == "asc":
+            lv = sorted(int(x) for x in rng.choice(nz, size=k, replace=False))
+        elif kind == "desc":
+            lv = sorted((int(x) for x in rng.choice(nz, size=k, replace=False)), reverse=True)
+        elif kind == "shuf":
+            lv = [int(x) for x in rng.permutation(nz)[:k]]
+        elif kind == "rep":
+            lv = [int(x) for x in rng.integers(0, nz, size=k)]
+        elif kind == "top":
+            lv = [nz - 1] + [int(x) for x in rng.integers(0, nz, size=k - 1)]
+        elif kind == "scalar":
+            lv = int(rng.integers(0, nz))
+        else:
+            lv = list(range(nz))
+        c["levels"] = lv
+        if c["analytic"]:
+            c["profiles"] = uniform_profiles(rng, nz)
+        c["par"] = dict(form=str(rng.choice(["list", "array"])), full=bool(rng.random() < 0.3))
+        st["branches"]["levels=%s" % kind] = st["branches"].get("levels=%s" % kind, 0) + 1
+        run_oracle(st, o_levels, c)
+    return finish(st, "level selections ascending / descending / shuffled / repeated / with top node / scalar / full column, given as list, tuple or "
+                  "ndarray, numeric and analytic, both modes and precisions; oracle: each slice vs the single-level request and the full-column request, "
+                  "height label exact", deep, TOL)
+
+
+# ------------------------------------------------------------ C11 shapes / registration / low-pass / clamp
+
+@oracle
+def o_shape_registration(case):
+    base = base_of(case)
+    q = np.asarray(base["q"], dtype=float)
+    ny, nx = q.shape
+    xmx, ymx = base["domain"]
+    try:
+        grid, conc, flx = real_solve(base)
+    except Exception as e:  # noqa: BLE001
+        return None   # raising is allowed; silently wrong is not
+    lv = base["levels"]
+    nlv = 1 if np.ndim(lv) == 0 else len(lv)
+    want = (ny, nx) if nlv == 1 else (nlv, ny, nx)
+    if tuple(np.shape(conc)) != want or tuple(np.shape(flx)) != want:
+        return fail("C11/shape", "returned field does not have the shape of the surface-flux field", None, list(want), list(np.shape(flx)), 0)
+    X, Y = np.asarray(grid[0]), np.asarray(grid[1])
+    X2 = X.reshape(nlv, ny, nx)[0]
+    Y2 = Y.reshape(nlv, ny, nx)[0]
+    ex = np.arange(nx) * (xmx / nx)
+    ey = np.arange(ny) * (ymx / ny)
+    if not (np.allclose(X2, ex[None, :], rtol=1e-12, atol=0) and np.allclose(Y2, ey[:, None], rtol=1e-12, atol=0)):
+        return fail("C11/coords", "returned coordinates are not x=i*dx, y=j*dy", None, "i*dx, j*dy", "differs", 1e-12)
+    # registration: against the independent closed-form synthesis (uniform profiles, analytic) when applicable
+    if base["analytic"]:
+        p, qq = spec_fields(base, closed_form_coef(base))
+        tol = 1e-9 if base["precision"] == "double" else 3e-5
+        for name, got, exp in (("conc", conc, p), ("flx", flx, qq)):
+            e = relerr(np.asarray(got, dtype=float).reshape(nlv, ny, nx), exp)
+            if not e <= tol:
+                return fail("C11/registration/%s" % name, "returned %s is not registered on the input grid (differs from the closed-form field at the same cells)" % name,
+                            None, "equal", e, tol)
+    return None
+
+
+@oracle
+def o_lowpass_clamp(case):
+    base = dict(base_of(case), halo=0.0, precision="double")
+    ny, nx = np.asarray(base["q"]).shape
+    nlx, nly = base["modes"]
+    try:
+        a = solve3(base)
+    except Exception:  # noqa: BLE001
+        return None
+    if nx % 2 == 0 and ny % 2 == 0:
+        full = solve3(dict(base, modes=(nx, ny)))
+        tol = 1e-9
+        if nlx > nx or nly > ny:
+            for name, k in (("conc", 0), ("flx", 1)):
+                e = relerr(a[k], full[k])
+                if not e <= tol:
+                    return fail("C11/clamp/%s" % name, "requesting more modes than the grid holds differs from requesting exactly as many", None, "equal", e, tol)
+        else:
+            for name, k in (("conc", 0), ("flx", 1)):
+                e = relerr(lowpass_strict(a[k], nlx, nly), lowpass_strict(full[k], nlx, nly))
+                if not e <= tol:
+                    return fail("C11/lowpass/%s" % name, "truncation changed a component strictly inside the cut-off", None, "equal", e, tol)
+                # and nothing at or beyond the cut-off survives
+                F = np.fft.fft2(a[k], axes=(1, 2))
+                fy = np.abs(np.fft.fftfreq(ny, 1.0 / ny))
+                fx = np.abs(np.fft.fftfreq(nx, 1.0 / nx))
+                out = np.abs(F[:, fy > nly / 2, :]).max(initial=0.0) + np.abs(F[:, :, fx > nlx / 2]).max(initial=0.0)
+                if not out <= 1e-9 * max(np.abs(F).max(), 1e-300):
+                    return fail("C11/lowpass-leak/%s" % name, "components beyond the cut-off are present in the truncated result", None, 0.0, float(out), 1e-9)
+    return None
+
+
+def run_C11(rng, tier, deep):
+    st = new_stats()
+    cases = []
+    sizes = list(range(2, 8))
+    n = budget(tier, deep, 40, 300)
+    for i in range(n):
+        nx, ny = int(rng.choice(sizes)), int(rng.choice(sizes))
+        c = random_case(rng)
+        c["q"] = random_source(rng, ny, nx)
+        c["modes"] = (int(rng.choice([2, 4, 6, 8, 10, 512])), int(rng.choice([2, 4, 6, 8, 10, 512])))
+        if rng.random() < 0.08:
+            c["modes"] = (c["modes"][0] + 1, c["modes"][1])   # odd: must be rejected
+        dx = c["domain"][0] / nx
+        c["halo"] = [0.0, None, 0.37 * c["domain"][0], float(rng.uniform(0.2, 2.7) * dx)][int(rng.integers(4))]
+        if c["halo"] is None:
+            c["domain"] = (c["domain"][0], c["domain"][0] * float(rng.uniform(0.7, 1.4)))
+        im, jm = int(rng.integers(0, nx)), int(rng.integers(0, ny))
+        c["meas_pt"] = (im * c["domain"][0] / nx, jm * c["domain"][1] / ny)
+        if c["analytic"]:
+            c["profiles"] = uniform_profiles(rng, len(c["z"]))
+        c["_kinds"] = dict(parity="%s%s" % ("e" if nx % 2 == 0 else "o", "e" if ny % 2 == 0 else "o"))
+        cases.append(c)
+    correspond(cases, st)
+    # oracle: exhaustive small sweep in thorough, sampled in quick
+    combos = [(nx, ny, mx, my, h, fp) for nx in range(2, 8) for ny in range(2, 8) for mx in (2, 4, 6, 512) for my in (2, 4, 8, 512)
+              for h in ("zero", "none", "incomm") for fp in (False, True)]
+    idx = rng.permutation(len(combos))[:budget(tier, deep, 120, 1500)]
+    for t in idx:
+        nx, ny, mx, my, h, fp = combos[int(t)]
+        c = random_case(rng, footprint=fp, analytic=True, precision="double")
+        c["q"] = random_source(rng, ny, nx)
+        c["profiles"] = uniform_profiles(rng, len(c["z"]))
+        c["modes"] = (mx, my)
+        xmx = c["domain"][0]
+        c["domain"] = (xmx, xmx * float(rng.uniform(0.7, 1.4)))
+        c["halo"] = {"zero": 0.0, "none": None, "incomm": 0.37 * xmx}[h]
+        im, jm = int(rng.integers(0, nx)), int(rng.integers(0, ny))
+        c["meas_pt"] = (im * c["domain"][0] / nx, jm * c["domain"][1] / ny) if fp else (0.0, 0.0)
+        st["branches"]["parity=%s%s" % ("e" if nx % 2 == 0 else "o", "e" if ny % 2 == 0 else "o")] = \
+            st["branches"].get("parity=%s%s" % ("e" if nx % 2 == 0 else "o", "e" if ny % 2 == 0 else "o"), 0) + 1
+        run_oracle(st, o_shape_registration, c)
+        if rng.random() < 0.4:
+            c2 = dict(c, analytic=False, profiles=power_profiles(rng, len(c["z"]), c["z"]), meas_pt=(0.0, 0.0), footprint=False)
+            run_oracle(st, o_lowpass_clamp, c2)
+    return finish(st, "grid sizes 2..7 in both parities x mode counts below/at/above the padded size x halo 0/None/incommensurate x both modes; "
+                  "oracle: shape, coordinates, registration against an independent closed-form synthesis at the same cells, low-pass and clamp by FFT of halo=0 outputs",
+                  deep, TOL)
+
+
+# ------------------------------------------------------------ C01 convergence to the exact BVP solution
+
+def profile_family(par):
+    """height-dependent profile functions from a JSON-able parameter dict"""
+    kind_u, kind_k = par["wind"], par["diff"]
+    z0, H = par["z0"], par["H"]
+    sp, wd = par["speed"], par["wdir"]
+    ax, ay = par["ax"], par["ay"]
+    k0 = par["k0"]
+    L = par.get("L", -50.0)
+
+    def absu(z):
+        if kind_u == "log":
+            return sp * np.log(z / (0.5 * z0)) / np.log(H / (0.5 * z0))
+        return sp * (z / H) ** par.get("pw", 0.25)
+
+    def K(z):
+        if kind_k == "linear":
+            return k0 * (0.2 + z / H)
+        if kind_k == "power":
+            return k0 * (z / H + 0.05) ** par.get("pk", 0.8)
+        # MOST-like: kappa u* z / phi(z/L)
+        x = z / L
+        phi = np.where(x > 0, 1 + 5 * x, (1 - 16 * np.minimum(x, 0.0)) ** -0.5)
+        return 0.4 * k0 * z / phi + 0.02 * k0
+    return (lambda z: absu(z) * np.cos(wd), lambda z: absu(z) * np.sin(wd),
+            lambda z: ax * K(z), lambda z: ay * K(z), K)
+
+
+def exact_transfer(fns, Lx, Ly, z0, H, zout):
+    """exact (p, q) response at heights zout to unit spectral surface flux, via the Riccati form"""
+    from scipy.integrate import solve_ivp
+    u, v, Kx, Ky, Kz = fns
+
+    def T(z):
+        return -(Kx(z) * Lx ** 2 + Ky(z) * Ly ** 2) - 1j * (u(z) * Lx + v(z) * Ly)
+    lam = np.sqrt(-T(H) / Kz(H))
+    R_H = 1.0 / (Kz(H) * lam)
+    sol = solve_ivp(lambda z, R: -1.0 / Kz(z) - T(z) * R * R, (H, z0), [complex(R_H)], method="DOP853",
+                    rtol=1e-11, atol=1e-14, dense_output=True)
+    Rf = lambda z: sol.sol(z)[0]  # noqa: E731
+    sol2 = solve_ivp(lambda z, lq: T(z) * Rf(z), (z0, H), [0j], method="DOP853", rtol=1e-11, atol=1e-14, dense_output=True)
+    out = []
+    for zz in zout:
+        qv = np.exp(sol2.sol(zz)[0])
+        out.append((Rf(zz) * qv, qv))
+    return out
+
+
+@oracle
+def o_convergence(par):
+    """error vs the exact BVP solution at n, 4n, 16n layers: O(dz/z), ratio >= 2.5 per quartering"""
+    fns = profile_family(par)
+    z0, H = par["z0"], par["H"]
+    nx, ny = par["nx"], par["ny"]
+    xmx, ymx = par["domain"]
+    rng = np.random.default_rng(par["qseed"])
+    q = rng.normal(size=(ny, nx))
+    n0 = par["n0"]
+    gam = par["gamma"]
+    frac = par["out_frac"]
+    dx, dy = xmx / nx, ymx / ny
+    fa = np.fft.fftfreq(ny, 1.0 / ny)
+    fb = np.fft.fftfreq(nx, 1.0 / nx)
+    Ly = 2 * np.pi * fa / (dy * ny)
+    Lx = 2 * np.pi * fb / (dx * nx)
+    errs = []
+    resolved = None
+    worst_first = 0.0
+    for n in (n0, 4 * n0, 16 * n0):
+        s = np.linspace(0, 1, n + 1)
+        z = z0 + (H - z0) * s ** gam
+        lout = int(round(frac * n0)) * (n // n0)
+        prof = tuple(f(z) for f in fns)
+        case = dict(q=q, z=z, profiles=prof, domain=(xmx, ymx), levels=[lout, n], modes=(nx, ny), meas_pt=(0.0, 0.0),
+                    bg=0.0, footprint=False, analytic=False, halo=0.0, precision="double")
+        conc, flx, Z = solve3(case)
+        Fq = np.fft.fft2(q)
+        Wq = np.fft.fft2(flx, axes=(1, 2)) / Fq
+        Wp = np.fft.fft2(conc, axes=(1, 2)) / Fq
+        if resolved is None:
+            dz = np.diff(z)
+            resolved = np.zeros((ny, nx), dtype=bool)
+            for a in range(ny):
+                for b in range(nx):
+                    if a == 0 and b == 0:
+                        continue
+                    if abs(fa[a]) * 2 >= ny or abs(fb[b]) * 2 >= nx:
+                        continue   # Nyquist rows/columns of a real field are not a single complex mode
+                    Tn = -(prof[2] * Lx[b] ** 2 + prof[3] * Ly[a] ** 2) - 1j * (prof[0] * Lx[b] + prof[1] * Ly[a])
+                    if np.all(np.abs(Tn[:-1]) * dz ** 2 / prof[4][:-1] <= 1.0):
+                        lamz = np.sqrt(-Tn / prof[4])
+                        if np.sum(lamz.real[:-1] * dz) <= 18.0:
+                            resolved[a, b] = True
+            if not resolved.any():
+                return None
+            exact = {}
+            for a in range(ny):
+                for b in range(nx):
+                    if resolved[a, b]:
+                        exact[(a, b)] = exact_transfer(fns, Lx[b], Ly[a], z0, H, [z[lout], H])
+            rel_dz = float(np.max(np.diff(z)[1:] / z[1:-1])) if n > 1 else 1.0
+            rel_dz = max(rel_dz, float((z[1] - z[0]) / z[1]))
+        e = 0.0
+        for (a, b), ex in exact.items():
+            for k in range(2):
+                pe, qe = ex[k]
+                e = max(e, abs(Wq[k, a, b] - qe) / max(abs(qe), 1e-300) if abs(qe) > 1e-9 else 0.0)
+                e = max(e, abs(Wp[k, a, b] - pe) / max(abs(pe), 1e-300) if abs(pe) > 1e-9 * abs(ex[0][0]) else 0.0)
+        errs.append(float(e))
+    if par.get("_debug"):
+        return dict(errs=errs, rel_dz=rel_dz, nres=int(resolved.sum()))
+    if not errs[0] <= 3.0 * rel_dz:
+        return fail("C01/error-size", "error on a resolving grid exceeds a small multiple (3x) of the relative layer thickness", None,
+                    "<= %g" % (3 * rel_dz), errs, None)
+    for e0, e1 in zip(errs, errs[1:]):
+        if e0 > 1e-7 and e1 > 1e-9:
+            if not e0 / e1 >= 2.5:
+                return fail("C01/ratio", "error shrinks by less than 2.5x when the layer thickness is quartered", None, ">= 2.5", errs, None)
+    return None
+
+
+def conv_par(rng):
+    z0 = float(rng.uniform(0.02, 0.3))
+    H = float(rng.uniform(4, 15))
+    nx, ny = int(rng.choice([4, 6, 8])), int(rng.choice([4, 6]))
+    xmx = float(rng.uniform(150, 600))
+    return dict(wind=str(rng.choice(["log", "power"])), diff=str(rng.choice(["linear", "power", "most"])), z0=z0, H=H,
+                speed=float(rng.uniform(1.5, 6)), wdir=float(rng.uniform(0, 2 * np.pi)), ax=float(rng.uniform(0.5, 2)),
+                ay=float(rng.uniform(0.5, 2)), k0=float(rng.uniform(0.3, 2.0)), L=float(rng.choice([-30.0, -100.0, 80.0, 400.0])),
+                pw=float(rng.uniform(0.1, 0.4)), pk=float(rng.uniform(0.5, 1.2)), nx=nx, ny=ny,
+                domain=[xmx, float(xmx * rng.uniform(0.6, 1.5))], qseed=int(rng.integers(1 << 30)),
+                n0=int(rng.choice([8, 12, 16])), gamma=float(rng.choice([1.0, 1.5, 2.0])), out_frac=float(rng.choice([0.25, 0.5, 0.75])))
+
+
+def run_C01(rng, tier, deep):
+    st = new_stats()
+    cases = []
+    for i in range(budget(tier, deep, 24, 200)):
+        c = random_case(rng, analytic=False, small=(i % 4 != 0))
+        c["profiles"] = power_profiles(rng, len(c["z"]), c["z"])
+        cases.append(c)
+    correspond(cases, st)
+    for _ in range(budget(tier, deep, 6, 60)):
+        run_oracle(st, o_convergence, conv_par(rng))
+    return finish(st, "correspondence on height-dependent profiles; oracle: per-mode transfer functions fft2(out)/fft2(src) at n, 4n, 16n layers "
+                  "against an independent Riccati integration of the exact BVP (scipy DOP853, rtol 1e-11) for log/power wind x linear/power/MOST "
+                  "diffusivity x anisotropy x wind angle x uniform/stretched grids, resolved components only", deep, TOL)
